@@ -1,7 +1,7 @@
 (* No operation of the world is ever stuck (panic; read of an uninitialised,
    moved-out or out-of-range slot), provided component types are registered
    before they are used (using an unregistered component is a documented panic). *)
-From SV Require Import Base.ListX Alloc.LifeProps Store.Masked Store.StoreInv World.Env World.Join World.JoinPres World.StoreSim World.EnvSim
+From SV Require Import Base.ListX Alloc.LifeProps Store.Masked Store.StoreInv World.Env World.Join World.JoinPres World.StoreSim World.EnvSim World.JoinNoStuck
   World.WorldSpec World.Simulation World.Micro.
 
 Definition registered (e : senv) (sid : N) : bool :=
@@ -18,7 +18,7 @@ Definition op_regs_ok (e : senv) (o : op) : bool :=
   | OStore so => registered e (sop_sid so) && valid_sid (sop_sid so)
   | OQuiet (SRegister sid) => valid_sid sid
   | OQuiet so => registered e (sop_sid so) && valid_sid (sop_sid so)
-  | OJoin _ _ => false        (* joins: World/JoinSafe.v *)
+  | OJoin _ ms => forallb (m_registered e) ms
   | _ => true
   end.
 
@@ -155,7 +155,9 @@ Proof.
     split; cbn [s_with_env s_env]; destruct out as [| | | | | | | |r|o| | | | | | | | | | ]; try assumption; try congruence;
       try (destruct r; try assumption; try congruence; apply Hd);
       try (destruct o; try assumption; try congruence; apply Hd).
-  - discriminate.
+  - destruct H as [HE Hs].
+    destruct (env_join_never_stuck (s_env w) (l_view (s_life w)) (eids_of (l_entities (s_life w))) (s_hs w) jk jms HE Hs Hr) as [X1 X2].
+    destruct (env_join (s_env w) _ _ (s_hs w) jk jms) as [e' j]. cbn [fst] in *. split; cbn [s_with_env s_env]; assumption.
   - destruct H as [HE Hs].
     pose proof (env_csop_pres (fun e' => EInv e' /\ cx_stuck (se_cx e') = false)) as X.
     assert (forall e' k m, EInv e' /\ cx_stuck (se_cx e') = false -> EInv (cs_put e' k m) /\ cx_stuck (se_cx (cs_put e' k m)) = false) as Hcs.
@@ -171,8 +173,19 @@ Proof.
   intros [[S T] K]. unfold s_begin, env_begin. split; cbn; [split; cbn; auto | assumption].
 Qed.
 
+Lemma m_registered_stores e e' m : se_stores e' = se_stores e -> m_registered e' m = m_registered e m.
+Proof. intros H. induction m; cbn [m_registered m_sid]; rewrite ?H; auto. Qed.
+
+Lemma op_regs_ok_begin w o : op_regs_ok (s_env (s_begin w)) o = op_regs_ok (s_env w) o.
+Proof.
+  destruct o; try reflexivity. cbn [op_regs_ok].
+  induction ms as [|m r IH]; cbn [forallb]; [reflexivity|]. rewrite IH. f_equal. apply m_registered_stores. reflexivity.
+Qed.
+
 Theorem sstep_ok w o cs : SInvE w -> op_regs_ok (s_env w) o = true -> SInvE (fst (sstep w o cs)).
-Proof. intros H Hr. unfold sstep. apply sstep_core_ok; [apply SInvE_begin; assumption | exact Hr]. Qed.
+Proof.
+  intros H Hr. unfold sstep. apply sstep_core_ok; [apply SInvE_begin; assumption | rewrite op_regs_ok_begin; exact Hr].
+Qed.
 
 Lemma SInvE_init b : SInvE (s_init_env b).
 Proof. split; cbn; [apply EInv_init | reflexivity]. Qed.
